@@ -51,6 +51,7 @@ READERS = {
 OPERATIONS = ["FMAtomicSets", "FMAverageBranchingFactor", "FMCoreFeatures", "FMCountLeafs",
               "FMEstimatedConfigurationsNumber", "FMFeatureAncestors", "FMLeafFeatures",
               "FMMaxDepthTree", "FMMetrics", "FMVariationPoints"]
+ALL_FACETS = ["names", "tree", "abstract", "type", "fcard", "attrs", "ctc_count", "ctc_equiv"]
 RT_PROP = {"uvl": "C01", "json": "C05", "afm": "C06", "fide": "C07", "glencoe": "C08"}
 NEG_PROP = {"uvl": "C04", "json": "C09", "afm": "C09", "fide": "C09", "glencoe": "C09",
             "xml": "C09"}
@@ -269,7 +270,8 @@ class Segment:
 
     def op_EDIT(self, op, rec):
         entry = self.models.get(op["m"])
-        if entry is None:
+        if entry is None or entry.get("tainted"):
+            # a model that already deviates from its reference cannot follow the planned edit
             rec["outcome"] = "skipped"
             return
         self.bridge.apply_edit(entry["obj"], op["edit"])
@@ -277,10 +279,12 @@ class Segment:
         entry["version"] += 1
         entry["edited"] = True
         entry["from_file"] = None
-        now = rm.cj(rm.flat(self.bridge.observe(entry["obj"])))
-        if not entry.get("tainted") and now != rm.cj(rm.flat(op["ref_after"])):
-            raise RuntimeError("harness: edit %r did not produce the planned reference" %
-                               (op["edit"],))
+        observed = self.bridge.observe(entry["obj"])
+        now = rm.cj(rm.flat(observed))
+        diffs = rm.compare(op["ref_after"], observed, ALL_FACETS)
+        if diffs:
+            raise RuntimeError("harness: edit %r did not produce the planned reference: %r" %
+                               (op["edit"], diffs[:2]))
         entry["flat"] = now
         rec["outcome"] = "ok"
 
@@ -307,6 +311,7 @@ class Segment:
                 fh.write(base64.b64decode(op["stale"]))
             tags.append("hist.stale_target")
             self.probe("stale_target_prepared")
+            self.files[rel] = {"fmt": None, "state": "stale", "ref": None}
         before_bytes = None if rel is None else self.read_bytes(rel)
         key = "W:%s:%s:%s" % (fmt, op["m"], rel)
         if op.get("writer") == "reuse" and key in self.objects:
